@@ -36,6 +36,7 @@ type PathResult struct {
 	Violation *Violation
 	Steps     int64
 	Notes     map[string]int
+	Tables    map[string][]string
 }
 
 type Report struct {
@@ -131,6 +132,7 @@ func (w *World) RunPath(fn *ssa.Function, s *smt.Solver, pp PendingPath, maxStep
 	res.Violation = p.Violation
 	res.Steps = p.Steps
 	res.Notes = p.Notes
+	res.Tables = p.Tables
 	return res, p
 }
 
@@ -244,12 +246,12 @@ func (w *World) Explore(name string, opt Options) (*Report, error) {
 				}
 			}
 			if res.Outcome == "budget" && len(rep.Violations) < 50 {
-				rep.Violations = append(rep.Violations, &Violation{Label: "budget", Inputs: res.Inputs,
+				rep.Violations = append(rep.Violations, &Violation{Label: "budget", Inputs: res.Inputs, Tables: p.Tables,
 					Forks: append([]int32(nil), p.Forks...), Trace: res.Trace, Detail: res.Msg})
 			}
 			if res.Outcome == "panic" && len(rep.Violations) < 50 {
 				// an uncaught panic out of the harness is itself a finding candidate
-				rep.Violations = append(rep.Violations, &Violation{Label: "uncaught-panic", Inputs: res.Inputs,
+				rep.Violations = append(rep.Violations, &Violation{Label: "uncaught-panic", Inputs: res.Inputs, Tables: p.Tables,
 					Forks: append([]int32(nil), p.Forks...), Trace: res.Trace, Detail: res.Msg})
 			}
 			if len(rep.Samples) < opt.KeepSample || (res.Outcome != "ok" && len(rep.Samples) < 3*opt.KeepSample) {
